@@ -13,7 +13,8 @@ from vlib.core import Report
 EXTRA = ["def a = 0x1F + 0b101 - 1_000; a", "'it\\'s' + \"q\\\"q\" + 'tab\\tnl\\nx\\x41'", "1 != 2 and 2 <> 3", "def f(x) do x * 2; end; f(3);",
          "[1, 2, 3] !> length()", "<<<'a' => 1, 'b' => 2>>>['a']", "def s = 'a\nb'; length(s)", "-5 + 3 * (2 - 1)", "if TRUE then 'y' else 'n'",
          "def o = <*x = 1*>; o->x", "[x * 2 for x in [1, 2, 3] if x != 2]", "do error 'e' catch 'e' 1 finally 2 end", "def r = []; def p(n) do if n != 0 then error n; 'f' catch 1 do r = r + [n]; 'one' end catch 2 'two' catch all do 'any' end finally r = r + [0] end; [p(0), p(1), p(2), p(3), r]",
-         "def class K do def a = 1; def get(self) self->a end; K->get()", "def f(x) do if x > 1 then return; x end; [f(1), f(2)]", "//a.*// !> string()",
+         "def class K do def a = 1; def get(self) self->a end; K->get()", "def f(x) do if x > 1 then return; x end; [f(1), f(2)]", "def g(x) do if x > 1 then do return; end; return; end; def h() do return end; [g(1), g(2), h()]",
+         "def l = []; def k(x) do if x > 1 then do append(l, x); return x * 2; end; append(l, 0); return; end; [k(1), k(5), l]", "//a.*// !> string()",
          "def x = 3; x += 0x10; x %= 7; x", "println('out'); print(1); 2", "-0.5 * 2", "1.50 + 2.25"]
 
 
